@@ -605,7 +605,9 @@ func c14Verdicts(c *core.Ctx) {
 		c.Check(ok && !direct, "C14.R4", fmt.Sprintf("sendWillLocked|uses-req.Message|deliverMessage#%d", i), ipos(c, e.Instr), "delivers req.Message", "sendWillLocked delivers the original will message, not the one returned by OnWillPublish (req.Message)")
 		if len(args) >= 3 {
 			// the iteration options (topic) derive from req.Message as well
-			set := ssax.BackwardOpt(args[2], func(call *ssa.Call) bool { return call.Call.StaticCallee() != nil && call.Call.StaticCallee().Name() == "defaultIterateOptions" })
+			set := ssax.BackwardOpt(args[2], func(call *ssa.Call) bool {
+				return call.Call.StaticCallee() != nil && call.Call.StaticCallee().Name() == "defaultIterateOptions"
+			})
 			okT := ssax.AnyIn(set, isMsgLoad) || ssax.AnyIn(set, ssax.LoadOfField("server.WillMsgRequest.IterationOptions"))
 			c.Check(okT, "C14.R4", fmt.Sprintf("sendWillLocked|topic-from-req.Message|deliverMessage#%d", i), ipos(c, e.Instr), "matching topic taken from req.Message", "the will is matched against the original topic, not the topic of req.Message")
 		}
